@@ -22,7 +22,7 @@ ASSUMPTIONS = [
     "for a channel dropped *with* a callback registered the peer enters the documented send-only state: only the receive-side clauses are asserted there",
 ]
 MINIMUM = {"histories": 400, "signatures": 50, "sweep_fired": 100, "receivers_checked": 800}
-SHARD_TIMEOUT = {"quick": 200, "thorough": 2400}
+SHARD_TIMEOUT = {"quick": 120, "thorough": 2400}
 
 HOWS = ["close", "close_error", "end_of_exec", "drop", "drop_with_callback"]
 
